@@ -38,6 +38,12 @@ def routing_case(draw, broker):
                      "retries": draw(st.integers(0, 2)),
                      # some jobs are deferred: they pass through the delayed category of a queue other workers poll
                      "delay_ms": draw(st.sampled_from([0, 0, 0, 300, 900, 1500]))})
+    if broker != "amqp" and draw(st.integers(0, 3)) == 0:
+        # a backlog of messages nobody here serves, older than everything else in one queue (more than one fetch window of 10)
+        q = draw(st.sampled_from(QUEUES))
+        backlog = [{"id": f"f{i}", "name": "zz_unknown", "queue": q, "at": 0.0, "retries": 0, "delay_ms": 0, "first": True}
+                   for i in range(draw(st.sampled_from([9, 10, 11, 20, 25])))]
+        jobs = backlog + jobs
     case = {"broker": broker, "seed": draw(st.integers(0, 2**16)), "routers": routers, "workers": workers, "jobs": jobs}
     if broker != "mem":
         case["lat"] = draw(st.lists(st.sampled_from([0.0, 0.001, 0.002]), max_size=15))
@@ -110,7 +116,10 @@ async def _routing(loop, case, out: Outcome):
             due[j["id"]] = loop.time() + j["delay_ms"] / 1000
         enq[j["id"]] = await Job(j["name"], queue=j["queue"], id_=j["id"], retries=j["retries"], _connection=prod, **extra).enqueue()
 
-    prods = [asyncio.ensure_future(produce(j)) for j in case["jobs"]]
+    for j in case["jobs"]:
+        if j.get("first"):
+            await produce(j)  # in order, before anything else
+    prods = [asyncio.ensure_future(produce(j)) for j in case["jobs"] if not j.get("first")]
     tasks, handlers = [], []
     for wk in workers:
         tasks.append(asyncio.ensure_future(wk.run()))
@@ -130,7 +139,7 @@ async def _routing(loop, case, out: Outcome):
                 regs.add(a["reg"])
         expect[j["id"]] = regs
     own = [j["id"] for j in case["jobs"] if expect[j["id"]]]
-    bound = 2.0 + 1.5 + len(case["jobs"]) * 1.2 + (3.5 if any(j.get("delay_ms") for j in case["jobs"]) else 0.0)
+    bound = 2.0 + 1.5 + len([j for j in case["jobs"] if not j.get("first")]) * 1.2 + (3.5 if any(j.get("delay_ms") for j in case["jobs"]) else 0.0)
     while loop.time() < bound:
         await asyncio.sleep(0.1)
         if all(p.done() for p in prods) and all(any(r[0] == i for r in runs) for i in own):
